@@ -236,6 +236,35 @@ def run(ctx):
                 if r2.kind != 'value' or r2.val != sub_inst:
                     ctx.violation('rename-laws', 'e2e', k, {'fields': fields, 'parent_style': st, 'child_style': st2, 'outcome': r2.brief()}, mech=f"e2e-subclass-input-names:{st}>{st2}")
 
+    # ---- fields with names of their own beside styled ones: an explicit out_name / explicit in_names do not leak into the styling
+    # of the field's NAME (dict(rename=) restyles names; the class's output style restyles the name of a field with explicit in_names)
+    for k in range(6):
+        rng = ctx.rng('e2e-explicit', k)
+        f0, f1, f2 = rng.sample(pool, 3)
+        for st in STYLES:
+            opts = rng.choice(({'rename': st}, {'out_rename': st}, {'out_rename': st, 'in_rename': st}))
+            ns = {'__annotations__': {f0: int, f1: int, f2: int}, '__module__': __name__,
+                  f1: env.pfield(out_name='uid'), f2: env.pfield(in_names=('retries', 'r2'))}
+            mk = observe(lambda: type(f"RX{next(_serial)}", (env.PaneBase,), ns, **opts))
+            ctx.count('end_to_end_explicit_name_classes')
+            if mk.kind != 'value':
+                ctx.violation('rename-laws', 'e2e', k, {'fields': [f0, f1, f2], 'options': opts, 'class_creation': mk.brief()}, mech=f"e2e-explicit-class-creation:{st}")
+                continue
+            inst = mk.val(1, 2, 3)
+            d = observe(inst.into_data)
+            want = [canonical(f0, st), 'uid', canonical(f2, st)]
+            if d.kind != 'value' or list(d.val.keys()) != want:
+                ctx.violation('rename-laws', 'e2e', k, {'fields': [f0, f1 + ' (out_name=uid)', f2 + ' (in_names=retries, r2)'], 'options': opts, 'into_data': d.brief(),
+                                                        'expected_keys': want}, mech=f"e2e-explicit-output-names:{st}")
+                continue
+            for st2 in STYLES:
+                dd = observe(inst.dict, rename=st2)
+                want2 = [canonical(f, st2) for f in (f0, f1, f2)]
+                if dd.kind != 'value' or list(dd.val.keys()) != want2:
+                    ctx.violation('rename-laws', 'e2e', k, {'fields': [f0, f1 + ' (out_name=uid)', f2 + ' (in_names=retries, r2)'], 'options': opts, 'style': st2,
+                                                            'dict(rename=)': dd.brief(), 'expected_keys': want2}, mech=f"e2e-explicit-dict-rename:{st}>{st2}")
+                    break
+
     # ---- thorough: sampled names over the whole alphabet -------------------------------------------------------------------------
     if ctx.tier == 'thorough':
         special = ('ii', 'll', 'id', 'url', 'abb', 'io', 'ss', 'ij', 'lj', 'nj', 'dz', 'ffi', 'fl', 'st', 'ae', 'oe', 'mc', 'mac', 'von', 'de', 'la')
